@@ -78,7 +78,9 @@ class C02(SimSpec):
 
     def strategy(self, tier):
         kw = self.gen_kwargs(tier)
-        return mix((3, scenarios(delays=True, min_obs=2, **kw)), (1, scenarios(adversary=True, **kw)))
+        from .props_sim import crowd
+        return mix((3, scenarios(delays=True, min_obs=2, **kw)), (2, crowd(kw, delays=True)),
+                   (1, scenarios(adversary=True, **kw)))
 
     def aborted(self, tr):
         return tr.status != 'completed' and tr.sc['alg']['kind'] != 'adversary'
